@@ -13,6 +13,12 @@ V4a == << 10, 0, 0, 1 >>
 V4b == << 1, 2, 3, 4 >>
 V6a == << 254, 128, 0, 0, 0, 0, 0, 0, 0, 0, 0, 0, 0, 0, 0, 9 >>
 V6b == << 32, 1, 13, 184, 0, 0, 0, 0, 0, 0, 0, 0, 0, 0, 0, 1 >>
+\* IPv6 addresses that begin with zero octets but are NOT zero-padded IPv4 (11.2: IPv4 iff the first
+\* 12 octets are zero and the address is not ::1): IPv4-mapped, 32 and 64 leading zero bits, and the
+\* edge of the rule (11 zero octets)
+V6mapped == << 0, 0, 0, 0, 0, 0, 0, 0, 0, 0, 255, 255, 1, 2, 3, 4 >>
+V6low == << 0, 0, 0, 0, 0, 0, 0, 1, 0, 0, 0, 0, 0, 0, 0, 1 >>
+V6edge == << 0, 0, 0, 0, 0, 0, 0, 0, 0, 0, 0, 1, 0, 0, 0, 5 >>
 
 Mk(src, sport, dst, dport, alen, appbytes, pay) ==
     LET body == B(UdpInFixed(src, sport, dst, dport, alen)) \o B(appbytes) \o pay IN
@@ -30,11 +36,11 @@ P2 == << [v |-> 0, n |-> 1], [v |-> 255, n |-> 1] >>
 
 MCKinds == [
     v4      |-> Mk(V4a, 1, V4b, 53, 1, << 65 >>, P3),
-    v6      |-> Mk(V6a, 65535, V6b, 443, 0, << >>, P2),
-    nopay   |-> Mk(V4a, 256, V4b, 255, 2, << 65, 66 >>, << >>),
+    v6      |-> Mk(V6a, 65535, V6mapped, 443, 0, << >>, P2),
+    nopay   |-> Mk(V6edge, 256, V4b, 255, 2, << 65, 66 >>, << >>),
     bare    |-> Mk(V4b, 0, V4a, 1, 0, << >>, << >>),
-    utf8    |-> Mk(V4a, 2, V4b, 3, 2, << 195, 169 >>, Run(9, 1)),
-    lo6     |-> Mk(V6Loopback, 7, V6Loopback, 8, 1, << 66 >>, Run(5, 2)),
+    utf8    |-> Mk(V6b, 2, V4b, 3, 2, << 195, 169 >>, Run(9, 1)),
+    lo6     |-> Mk(V6Loopback, 7, V6low, 8, 1, << 66 >>, Run(5, 2)),
     big     |-> Mk(V4a, 9, V4b, 10, 1, << 67 >>, Run(77, 60000)),
     short5  |-> Junk(5),
     short0  |-> Junk(0),
@@ -102,7 +108,8 @@ EmitBehaviour ==
 (* encoder vectors (6.4): printed once at start-up *)
 
 EncPayloads == { << >>, Run(7, 1), P3, Run(200, 1200), Run(0, 65000) }
-EncAddrs == { << V4a, 1 >>, << V4b, 65535 >>, << V6a, 53 >>, << V6b, 0 >>, << V6Loopback, 256 >>, << << 0, 0, 0, 0 >>, 80 >> }
+EncAddrs == { << V4a, 1 >>, << V4b, 65535 >>, << V6a, 53 >>, << V6b, 0 >>, << V6Loopback, 256 >>, << << 0, 0, 0, 0 >>, 80 >>,
+              << V6mapped, 7 >>, << V6low, 8 >>, << V6edge, 9 >> }
 
 ASSUME \A s \in EncAddrs, d \in EncAddrs, p \in EncPayloads :
           PrintT(<< "ENC", ToJson([ src |-> s[1], sport |-> s[2], dst |-> d[1], dport |-> d[2],
